@@ -2271,6 +2271,9 @@ def _class_const(repo, cls, attr: str):
 _NOVIEW = object()
 
 
+_ABSENT = object()           # a default for _view that means "this object has no such field" (distinct from _NOVIEW = raise)
+
+
 def _view(repo, obj, name: str, default=_NOVIEW):
     """
     obj.name for a model object: the stored attribute, or - when the class exposes it as a read-only @property (a view over a small state
@@ -2348,7 +2351,7 @@ class _CodecModel:
         try:
             v = lambda o, k: _view(self.repo, o, k)  # noqa: E731
             out = [v(obj, "p"), v(v(obj, "g"), "a"), v(v(obj, "g"), "b"), v(v(obj, "h"), "a"), v(v(obj, "h"), "b")]
-            out += [v(obj, k) for k in ("n", "t1") if _view(self.repo, obj, k, _NOVIEW) is not _NOVIEW]
+            out += [v(obj, k) for k in ("n", "t1") if _view(self.repo, obj, k, _ABSENT) is not _ABSENT]
             return out
         except (KeyError, AttributeError):
             return None
